@@ -360,6 +360,7 @@ def measure_documents(draw, MP):
     rows.extend(pre)
 
     quiet = [None]  # spine that only holds null tokens in the current measure (quiet_spines)
+    hide_next = [False]  # the next barline is invisible (so that a measure can END on a spine-operator row)
 
     def data_row(force_note=False):
         cells = [_data_cell(draw, P, paths.typ(k)) if paths.sp[k] != quiet[0] else G.null_cell() for k in range(width())]
@@ -391,7 +392,8 @@ def measure_documents(draw, MP):
     open_split = False
     for m in range(nm):
         barno += 1
-        b = draw(G.barlines(number=barno, hidden=MP['hidden_bars']))
+        b = draw(G.barlines(number=barno, hidden=MP['hidden_bars'], force_hidden=MP['hidden_bars'] and hide_next[0]))
+        hide_next[0] = False
         rows.append(_row([dict(b) for _ in range(width())]))
         quiet[0] = None
         live_kern = sorted({paths.sp[k] for k in range(width()) if paths.typ(k) == KERN})
@@ -482,6 +484,9 @@ def measure_documents(draw, MP):
                     quiet[0] = None
                 rows.append(_row([G.op_cell('*-') if k == k0 else G.nullinterp_cell() for k in range(width())]))
                 paths.sp = [s_ for k, s_ in enumerate(paths.sp) if k != k0]
+                if draw(st.booleans()):
+                    hide_next[0] = draw(st.booleans())
+                    break  # the terminating row is the last row of its measure
             elif x == 4 and MP['comments']:
                 rows.append(_row([draw(G.field_comments()) for _ in range(width())]))
             elif x == 5 and MP['tandems']:
